@@ -30,6 +30,13 @@ type RefRelay struct {
 	Resets      int // remaining "session state lost between two client streams" events
 	Detaches    int // remaining partner detach (Closed) + re-attach pairs
 	DeferAcks   int // remaining acknowledgements the relay may hold back until the client's next request
+	// HoldAfter >= 0: the partner takes (and acks) only the first HoldAfter
+	// messages; later ones stay queued at the relay for a partner that is slow
+	// to receive: they are neither received nor acknowledged.
+	HoldAfter int
+	// OnAck, if set, is called right after the relay pushed an acknowledgement
+	// to the client (a hook for fault threads that must fire around that moment).
+	OnAck func(seqno uint64)
 	deferred    []uint64
 	Inbound     []*signaling.SessionMsg // messages from the partner to deliver to the client
 	n           int
@@ -188,6 +195,10 @@ func (r *RefRelay) serve(d *sigfake.Duplex) {
 				r.Dropped = append(r.Dropped, r.W.msgDesc(b.SendMsg))
 				continue
 			}
+			if r.HoldAfter >= 0 && len(r.Acked) >= r.HoldAfter {
+				vsync.Logf("relay: holding %s (partner is not receiving)", r.W.msgDesc(b.SendMsg))
+				continue
+			}
 			r.Acked = append(r.Acked, string(b.SendMsg.GetSignedMsg().GetData()))
 			vsync.LogOrdered("relay: partner received %s", string(b.SendMsg.GetSignedMsg().GetData()))
 			if r.DeferAcks > 0 && vsync.Choose(2) == 1 {
@@ -196,6 +207,9 @@ func (r *RefRelay) serve(d *sigfake.Duplex) {
 				continue
 			}
 			_ = d.ToCli.Push(&signaling.SessionResponse{Body: &signaling.SessionResponse_AckMsg{AckMsg: b.SendMsg.GetSeqno()}})
+			if r.OnAck != nil {
+				r.OnAck(b.SendMsg.GetSeqno())
+			}
 		case *signaling.SessionRequest_AckMsg:
 			r.Received = append(r.Received, fmt.Sprint(b.AckMsg))
 		case *signaling.SessionRequest_ClearMsg:
@@ -221,7 +235,7 @@ func NewS2(reopens, fails int) *S2 {
 // NewS2Ex also bounds relay state resets and partner detach/re-attach pairs.
 func NewS2Ex(reopens, fails, resets, detaches int) *S2 {
 	w := NewWorld()
-	s := &S2{World: w, Relay: &RefRelay{W: w, Reopens: reopens, Fails: fails, Resets: resets, Detaches: detaches}}
+	s := &S2{World: w, Relay: &RefRelay{W: w, Reopens: reopens, Fails: fails, Resets: resets, Detaches: detaches, HoldAfter: -1}}
 	s.Ctx, s.Cancel = context.WithCancel(context.Background())
 	le := logrus.New()
 	le.SetOutput(io.Discard)
